@@ -47,6 +47,11 @@ type node struct {
 	closed  bool
 }
 
+// stakeHolders are the stake addresses of the run's voters (set per run).
+var stakeHolders []common.Uint168
+
+const stakeRights = common.Fixed64(1500000 * 100000000)
+
 func newNode(name string, cfg *config.Configuration, led *ledger, viaMgr bool, dataDir string) *node {
 	n := &node{name: name, cfg: cfg, led: led, viaMgr: viaMgr, dataDir: dataDir}
 	n.mgr = checkpoint.NewManager(cfg)
@@ -71,6 +76,11 @@ func newNode(name string, cfg *config.Configuration, led *ledger, viaMgr bool, d
 	})
 	n.dpos = dstate.NewState(cfg, nil, nil, nil, func() bool { return n.com.IsInElectionPeriod() },
 		nil, nil, nil, nil, nil, nil, nil)
+	for _, sh := range stakeHolders {
+		// vote rights are DPoS-state business (ExchangeVotes); here every voter
+		// simply holds some
+		n.dpos.DposV2VoteRights[sh] = stakeRights
+	}
 	n.bc = &blockchain.BlockChain{UTXOCache: blockchain.NewUTXOCache(ledgerStore{led}, cfg)}
 	n.bc.SetCRCommittee(n.com)
 	n.bc.SetState(n.dpos)
